@@ -1,11 +1,12 @@
 (* AliasCorr.v — correspondence entry points for C13. Definitions only. *)
-From PV Require Import Base Crit gen.TermsTable Terms TermsCorr gen.C13Table Alias.
+From PV Require Import Base Crit gen.TermsTable Terms TermsCorr Page gen.QueryTable Query gen.C13Table Alias.
 
 (* a case: the input and the text (or "!ExceptionClass") the implementation produced *)
 Inductive c13case :=
 | CTerm (c : ctx) (t : term) (expected : string)              (* one term under explicit keyword arguments *)
 | CStmt (s : stmt) (expected : string)                        (* str(query) of a SELECT statement *)
-| CIns (c : qclass) (row : list term) (expected : string).    (* str(query) of INSERT INTO t VALUES (row) *)
+| CIns (c : qclass) (row : list term) (expected : string)     (* str(query) of INSERT INTO t VALUES (row) *)
+| CQ (x : query) (expected : string).                          (* str(query) of a nested statement / set operation (shared Query.v) *)
 
 Definition res_text (r : res string) : string := match r with Ok s => s | Err e => "!" ++ e end.
 
@@ -14,9 +15,10 @@ Definition model_text (x : c13case) : string :=
   | CTerm c t _ => render_text c t
   | CStmt s _ => res_text (render_stmt s)
   | CIns c row _ => res_text (render_insert c row)
+  | CQ x _ => res_text (str_query x)
   end.
 Definition expected_text (x : c13case) : string :=
-  match x with CTerm _ _ e | CStmt _ e | CIns _ _ e => e end.
+  match x with CTerm _ _ e | CStmt _ e | CIns _ _ e | CQ _ e => e end.
 
 Definition check_c13 (x : c13case) : bool := String.eqb (model_text x) (expected_text x).
 Definition show_c13 (x : c13case) : string := model_text x.
